@@ -2,6 +2,7 @@ package gen
 
 import (
 	"strings"
+	"unicode"
 
 	"github.com/zclconf/go-cty/cty"
 	"pgregory.net/rapid"
@@ -112,14 +113,17 @@ func isIdent(s string) bool {
 	}
 	for i, r := range s {
 		switch {
-		case r == '_' || (r >= 'a' && r <= 'z') || (r >= 'A' && r <= 'Z') || r > 0x7f:
-		case i > 0 && (r == '-' || (r >= '0' && r <= '9')):
+		case r == '_' || unicode.IsLetter(r):
+		case i > 0 && (r == '-' || unicode.IsDigit(r) || unicode.Is(unicode.Mn, r) || unicode.Is(unicode.Mc, r) || unicode.Is(unicode.Pc, r)):
 		default:
 			return false
 		}
 	}
 	return true
 }
+
+// IsIdent reports whether s is an identifier per hclsyntax/spec.md (UAX #31 plus '-').
+func IsIdent(s string) bool { return isIdent(s) }
 
 func strLit(s string) ast.Node {
 	if s == "" {
